@@ -316,7 +316,9 @@ def _s4(fam, keyword, indents, sub, doc):
 
 _s4('namespace', 'namespace', (0,), lambda l, r: re.sub(r'namespace\s+\S+', 'namespace 123', l), '`namespace 123`')
 _s4('import', 'import', (0,), lambda l, r: l + ' ' + r.choice(('extra', '= x', '.y')), '`import a extra`')
-_s4('alias', 'alias', (0,), lambda l, r: l.replace(' = ', r.choice((' ', ' = = ', ' : ')), 1), 'alias without / with a doubled `=`')
+_s4('alias', 'alias', (0,), lambda l, r: r.choice((l.replace(' = ', r.choice((' ', ' = = ', ' : ')), 1),
+                                                    re.sub(r'^alias\b', r.choice(('namespace', 'doc', 'example', 'error')), l))),
+    'alias without / with a doubled `=`; another keyword in the place of `alias` (parser p_alias: "Expected alias keyword")')
 _s4('struct', 'struct', (0,), lambda l, r: re.sub(r'^struct\s+(\S+)', r.choice((r'struct \1 \1', r'struct = \1', r'struct \1 extends')), l.split(' extends ')[0]),
     '`struct A A`, `struct = A`, `struct A extends`')
 _s4('union', 'union', (0,), lambda l, r: re.sub(r'^(union(?:_closed)?)\s+(\S+)', r.choice((r'\1 \2 \2', r'\1 \2 extends', r'\1 3')), l.split(' extends ')[0]),
@@ -436,6 +438,69 @@ class _S10:
         k = rng.choice(list(ex.fields))
         ex.fields['ZQDUPEXF'] = ex.fields[k]
         return [('ZQDUPEXF', k)]
+
+
+@rule('S11', 'a list or a map cannot be the key of a map in an example (parser p_ex_map_pair: key that cannot be hashed)')
+class _S11:
+    def sites(model):
+        return [(ni, k) for ni, ns in enumerate(model.namespaces) if ns.name != 'stone_cfg' for k in ('list', 'map', 'inner')]
+
+    def apply(model, s, rng):
+        ns = model.namespaces[s[0]]
+        n = fresh(model, ns, 'ZqExHost')
+        vt = TypeRef('Map', args=[TypeRef('String'), TypeRef('Int32')])
+        d = mk_struct(n, [Field('a', TypeRef('Map', args=[TypeRef('String'), vt]) if s[1] == 'inner' else vt)])
+        d.examples = [Example('default', None, {'a': 'ZQUNHASHABLEKEY'})]
+        add_def(ns, d, rng)
+        return [('"ZQUNHASHABLEKEY"', {'list': '{[1]: 2}', 'map': '{{"k": 1}: 2}', 'inner': '{"k": {["j"]: 1}}'}[s[1]])]
+
+
+def _cut_sites(files):
+    out = []
+    for kw in ('struct', 'union', 'union_closed', 'route'):
+        for fi, no in header_lines(files, kw, 0):
+            line = files[fi][1].split('\n')[no]
+            if '"' not in line and '#' not in line and (kw != 'route' or '(' in line):
+                out.append((fi, no))
+    return out
+
+
+@rule('S12', 'a file that ends in the middle of a definition (parser p_error: "Unexpected end of file.")', 'text')
+class _S12:
+    def sites(files):
+        return _cut_sites(files)
+
+    def apply(files, site, rng):
+        fi, no = site
+        p, t = files[fi]
+        lines = t.split('\n')
+        line = lines[no]
+        if line.startswith('route'):
+            # ... inside the parentheses of a route signature: after `(`, or after the comma that follows the first type
+            k = line.index('(') + 1
+            first = re.match(r'\s*[A-Za-z_][\w.]*\??,', line[k:])
+            cut = line[:k + (first.end() if first and rng.random() < 0.5 else 0)]
+            files[fi] = (p, '\n'.join(lines[:no] + [cut]) + rng.choice(('', '\n')))
+        else:
+            # ... after the header line of a struct / union: the body (at least one line) is missing
+            files[fi] = (p, '\n'.join(lines[:no + 1]) + rng.choice(('', '\n', '\n\n')))
+        return files
+
+
+@rule('S13', 'a closing parenthesis without an opening one (lexer t_RPAR: "Unmatched closing parenthesis.")', 'text')
+class _S13:
+    def sites(files):
+        # a legal rendering without line continuations: every code line is balanced in itself
+        return [(fi, no) for fi, (_p, t) in enumerate(files) for no, _i, line in code_lines(t)
+                if '"' not in line and '#' not in line and line.count('(') == line.count(')')]
+
+    def apply(files, site, rng):
+        fi, no = site
+        p, t = files[fi]
+        line = t.split('\n')[no]
+        k = line.rindex(')') + 1 if ')' in line and rng.random() < 0.6 else len(line)
+        files[fi] = (p, edit_line(t, no, line[:k] + ')' + line[k:]))
+        return files
 
 
 # ================================================================================================ tier A: namespaces, imports
@@ -735,6 +800,38 @@ class _A13:
         set_field_slot_clean(model, s, TypeRef(name, ns=nsn))
 
 
+@rule('A13.kind', 'a symbol that is not a data type cannot be used as a type: an annotation, an annotation type, an imported '
+      'namespace (own or reached through an import) ("... is not a data type.")')
+class _A13k:
+    def sites(model):
+        return [s + (k,) for s in plain_slots(model) for k in ('annotation', 'annotation_type', 'namespace', 'far_annotation')]
+
+    def apply(model, s, rng):
+        ns = model.namespaces[s[0]]
+        k = s[5]
+        if k == 'annotation':
+            n = fresh(model, ns, 'ZqAnnoAsType')
+            add_def(ns, Annotation(n, rng.choice(('Deprecated', 'Preview', 'RedactedBlot'))), rng)
+            t = TypeRef(n)
+        elif k == 'annotation_type':
+            n = fresh(model, ns, 'ZqAnnoTypeAsType')
+            add_def(ns, AnnotationType(n, doc='zq', params=[]), rng)
+            t = TypeRef(n)
+        else:
+            imported = [m for m in ns.imports if sg.find_ns(model, m) is not None and m != 'stone_cfg']
+            far = sg.find_ns(model, rng.choice(imported)) if imported and rng.random() < 0.5 else _far_ns(model, ns, rng)
+            if k == 'namespace':
+                if not far.defs:
+                    add_def(far, Alias(fresh(model, far, 'ZqFarFiller'), TypeRef('String')), rng)
+                t = TypeRef(far.name)
+            else:
+                n = fresh(model, far, 'ZqFarAnno')
+                add_def(far, Annotation(n, 'Deprecated'), rng)
+                t = TypeRef(n, ns=far.name)
+        t.nullable = rng.random() < 0.2
+        set_field_slot_clean(model, s[:5], t)
+
+
 def _is_builtin(t):
     return t.ns is None and t.name in sg.BUILTIN_TYPES
 
@@ -836,7 +933,7 @@ _A20 = ['Int32(min_value=1.5)', 'Int32(min_value=-2147483649)', 'UInt32(min_valu
         'String(min_length=3, max_length=2)', 'String(min_length=1.5)', 'String(pattern="(")', 'String(pattern="[a-")',
         'String(pattern=3)', 'Timestamp(3)', 'Timestamp(true)', 'Map(Int32, String)', 'Map(Boolean, Int32)',
         'Map(List(String), String)', 'List(String, min_items=-1)', 'List(String, max_items=0)',
-        'List(String, min_items=3, max_items=2)']
+        'List(String, min_items=3, max_items=2)', 'UInt64(max_value=%s)' % ('9' * 4400), 'Int64(min_value=-%s)' % ('9' * 4400)]
 _A20H = ['List(3)', 'List("x")', 'Map(String, 3)', 'List(true)']
 
 
@@ -932,6 +1029,19 @@ class _A22a:
 
     def apply(model, s, rng):
         return _A22.apply(model, s, rng)
+
+
+@rule('A22.notype', 'a struct field must have a type: only a union member can be written without one')
+class _A22n:
+    def sites(model):
+        return [s for s in plain_slots(model, ('field',)) if not s[4] and
+                model.namespaces[s[0]].defs[s[1]].kind in ('struct', 'struct_patch')]
+
+    def apply(model, s, rng):
+        fl = members(model.namespaces[s[0]].defs[s[1]])[s[3]]
+        fl.type = None
+        fl.default = None
+        fl.annotations = []
 
 
 @rule('A23.alias', 'a default on a field whose type is an alias of a nullable type')
@@ -1049,20 +1159,22 @@ _A27 = [('Int32', 'a'), ('Int32', 1.5), ('Int32', 2147483648), ('UInt32', -1), (
         ('Boolean', 1), ('Boolean', 'true'), ('Float64', 'x'), ('Float32', 1e39), ('Bytes', 1), ('Int64', 'zero')]
 
 
-@rule('A27', 'a default must be valid for the field type: wrong literal kind, out of bounds, pattern, unknown / non-void tag')
+@rule('A27', 'a default must be valid for the field type: wrong literal kind, out of bounds, pattern, unknown / non-void tag, a literal for a union')
 class _A27r:
     def sites(model):
         fs = [s for s in plain_slots(model, ('field',)) if not s[4] and
               model.namespaces[s[0]].defs[s[1]].kind in ('struct', 'struct_patch')]
-        return [s + (k,) for s in fs for k in ('lit', 'bounds', 'tag', 'nonvoid')]
+        return [s + (k,) for s in fs for k in ('lit', 'bounds', 'tag', 'nonvoid', 'nottag')]
 
     def apply(model, s, rng):
         ns = model.namespaces[s[0]]
         fl = members(ns.defs[s[1]])[s[3]]
         how = s[5]
         if how == 'lit':
-            t, v = rng.choice(_A27)
+            t, v = rng.choice(_A27 + [('Int64', 'ZQHUGEINT'), ('UInt64', 'ZQHUGEINT')])
             fl.type, fl.default = TypeRef(t), v
+            if v == 'ZQHUGEINT':
+                return [('"ZQHUGEINT"', HUGE_INT)]
         elif how == 'bounds':
             fl.type, fl.default = rng.choice((
                 (TypeRef('Int32', kwargs={'max_value': 5}), 6), (TypeRef('UInt64', kwargs={'min_value': 10}), 9),
@@ -1074,6 +1186,8 @@ class _A27r:
             add_def(ns, mk_union(u, [Field('zq_void_tag'), Field('zq_int_tag', TypeRef('Int32'))]), rng)
             fl.type = TypeRef(u)
             fl.default = TagRef('zq_missing_tag' if how == 'tag' else 'zq_int_tag')
+            if how == 'nottag':
+                fl.default = rng.choice((1, 'zq_void_tag', True, 1.5))          # a literal where a tag is required
 
 
 @rule('A27.container', 'a default on a type that cannot have one (List / Map / struct)')
@@ -1219,6 +1333,16 @@ class _A33:
             else:
                 vs = {d.version for d in ns.defs if d.kind == 'route' and d.name == o.name}
                 r.deprecated = (o.name, max(vs) + rng.choice((1, 5)))
+
+
+@rule('A35', 'a route names three data types (argument, result, error): the error type cannot be left out (lang_ref "Route")')
+class _A35:
+    def sites(model):
+        return user_types(model, ('route',))
+
+    def apply(model, s, rng):
+        model.namespaces[s[0]].defs[s[1]].error = TypeRef('ZQNOERRORTYPE')
+        return [(', ZQNOERRORTYPE', '')]
 
 
 @rule('A34', '`deprecated by` something that is not a route')
@@ -1675,19 +1799,38 @@ class _B16:
 @rule('B17', 'a route attribute value must fit the type of the schema field (literal kind, bounds, void tag of the union)')
 class _B17:
     def sites(model):
-        return [(ni, di, k) for ni, di in _routes(model) for k in ('kind', 'bounds', 'tag', 'nonvoid')]
+        return [(ni, di, k) for ni, di in _routes(model)
+                for k in ('kind', 'bounds', 'tag', 'nonvoid', 'bytes', 'timestamp', 'composite', 'nottag')]
 
     def apply(model, s, rng):
         cfg = _ensure_cfg(model, rng)
         r = sg.find_def(model, 'stone_cfg', 'Route', ('struct',))
         route = model.namespaces[s[0]].defs[s[1]]
-        if s[2] in ('kind', 'bounds'):
-            t, v = rng.choice(((TypeRef('Int64', nullable=True), 'text'), (TypeRef('String', nullable=True), 5),
-                               (TypeRef('Boolean', nullable=True), 'true'))) if s[2] == 'kind' else \
-                rng.choice(((TypeRef('Int32', kwargs={'max_value': 5}, nullable=True), 6),
-                            (TypeRef('String', kwargs={'max_length': 2}, nullable=True), 'abc')))
+        if s[2] in ('kind', 'bounds', 'bytes', 'timestamp', 'composite'):
+            t, v = {
+                'kind': lambda: rng.choice(((TypeRef('Int64', nullable=True), 'text'), (TypeRef('String', nullable=True), 5),
+                                            (TypeRef('Boolean', nullable=True), 'true'), (TypeRef('Float64', nullable=True), 'x'))),
+                'bounds': lambda: rng.choice(((TypeRef('Int32', kwargs={'max_value': 5}, nullable=True), 6),
+                                              (TypeRef('String', kwargs={'max_length': 2}, nullable=True), 'abc'))),
+                'bytes': lambda: (TypeRef('Bytes', nullable=True), rng.choice((5, 1.5, True))),
+                'timestamp': lambda: (TypeRef('Timestamp', args=['%Y-%m-%d'], nullable=True), 'zq-not-a-date'),
+                # a value other than null for an attribute of a list / map type: there is no literal of such a type
+                'composite': lambda: (rng.choice((TypeRef('List', args=[TypeRef('Int32')], nullable=True),
+                                                  TypeRef('Map', args=[TypeRef('String'), TypeRef('Int32')], nullable=True))),
+                                      rng.choice((1, 'x', True))),
+            }[s[2]]()
             r.fields.append(Field('zq_typed_attr', t))
             route.attrs['zq_typed_attr'] = v
+        elif s[2] == 'nottag':
+            host = model.namespaces[s[0]]
+            if host.name == 'stone_cfg':
+                host = next(m for m in model.namespaces if m.name != 'stone_cfg')
+            u = fresh(model, host, 'ZqAttrUnion')
+            add_def(host, mk_union(u, [Field('zq_void_tag'), Field('zq_int_tag', TypeRef('Int32'))]), rng)
+            if host.name not in cfg.imports:
+                cfg.imports.append(host.name)
+            r.fields.append(Field('zq_tag_attr', TypeRef(u, ns=host.name, nullable=True)))
+            route.attrs['zq_tag_attr'] = rng.choice((1, 'zq_void_tag', True))      # a literal where a tag is required
         else:
             host = model.namespaces[s[0]]
             if host.name == 'stone_cfg':
@@ -1734,16 +1877,18 @@ class _B19:
         add_def(ns, AnnotationType(rng.choice(sg.BUILTIN_ANNOTATIONS), doc='zq', params=[Field('zq_p', TypeRef('String'))]), rng)
 
 
-@rule('B20', 'annotation-type parameters: not Void, no default on a nullable, primitive only, not annotated, unique names, valid default')
+@rule('B20', 'annotation-type parameters: typed, not Void, no default on a nullable, primitive only, not annotated, unique names, valid default')
 class _B20:
     def sites(model):
-        return [(ni, k) for (ni,) in _regular_ns(model) for k in ('void', 'nulldef', 'nonprim', 'annotated', 'repeat', 'baddef')]
+        return [(ni, k) for (ni,) in _regular_ns(model) for k in ('void', 'nulldef', 'nonprim', 'annotated', 'repeat', 'baddef', 'notype')]
 
     def apply(model, s, rng):
         ns = model.namespaces[s[0]]
         k = s[1]
         if k == 'void':
             ps = [Field('zq_p', TypeRef('Void'))]
+        elif k == 'notype':
+            ps = [Field('zq_p', TypeRef('String')), Field('zq_untyped')]       # a parameter written like a void union member
         elif k == 'nulldef':
             ps = [Field('zq_p', TypeRef('Int32', nullable=True), default=1)]
         elif k == 'nonprim':
@@ -1766,7 +1911,7 @@ class _B20:
 @rule('B21', 'a custom annotation must name an annotation type that exists (in an imported namespace)')
 class _B21:
     def sites(model):
-        return [(ni, k) for (ni,) in _regular_ns(model) for k in ('unknown', 'nottype', 'notimported', 'notns')]
+        return [(ni, k) for (ni,) in _regular_ns(model) for k in ('unknown', 'nottype', 'notimported', 'notns', 'ownprefix')]
 
     def apply(model, s, rng):
         ns = model.namespaces[s[0]]
@@ -1774,6 +1919,10 @@ class _B21:
         n = fresh(model, ns, 'ZqBadAnno')
         if k == 'unknown':
             a = Annotation(n, 'ZqNoSuchAnnotType', None, [], {})
+        elif k == 'ownprefix':
+            # the namespace's own name as prefix: a namespace cannot import itself (A3), so the prefix names no import
+            t = _mk_annot_type(model, ns, rng, [Field('zq_level', TypeRef('String'))])
+            a = Annotation(n, t, ns.name, ['high'], {})
         elif k == 'nottype':
             st = fresh(model, ns, 'ZqJustAStruct')
             add_def(ns, mk_struct(st), rng)
@@ -1787,14 +1936,26 @@ class _B21:
         add_def(ns, a, rng)
 
 
-@rule('B22', 'custom annotation arguments must fit the parameters: not too many, known names, valid values, none missing')
+@rule('B22', 'annotation arguments must fit the parameters of the (custom or built-in) annotation type: not too many, known names, '
+      'valid values, none missing')
 class _B22:
     def sites(model):
-        return [(ni, k) for (ni,) in _regular_ns(model) for k in ('many', 'unknown', 'invalid', 'invalidkw', 'missing')]
+        return [(ni, k) for (ni,) in _regular_ns(model) for k in ('many', 'unknown', 'invalid', 'invalidkw', 'missing',
+                                                                   'builtin_many', 'builtin_unknown', 'builtin_missing')]
 
     def apply(model, s, rng):
         ns = model.namespaces[s[0]]
         k = s[1]
+        if k.startswith('builtin_'):
+            t, args, kwargs = {
+                'builtin_many': lambda: rng.choice((('Deprecated', ['x'], {}), ('Preview', [1], {}), ('Omitted', ['a', 'b'], {}),
+                                                    ('RedactedBlot', ['x', 'y'], {}), ('RedactedHash', ['x', 'y'], {}))),
+                'builtin_unknown': lambda: rng.choice((('Deprecated', [], {'zq_nope': 1}), ('Omitted', [], {'zq_nope': 'x'}),
+                                                       ('RedactedBlot', [], {'zq_nope': 'x'}), ('Preview', [], {'omitted_caller': 'x'}))),
+                'builtin_missing': lambda: ('Omitted', [], {}),
+            }[k]()
+            add_def(ns, Annotation(fresh(model, ns, 'ZqBadArgs'), t, None, args, kwargs), rng)
+            return
         t = _mk_annot_type(model, ns, rng, [Field('zq_level', TypeRef('String'))])
         n = fresh(model, ns, 'ZqBadArgs')
         args, kwargs = {'many': (['a', 'b'], {}), 'unknown': ([], {'zq_nope': 1}), 'invalid': ([5], {}),
@@ -1807,16 +1968,44 @@ def _field_sites(model, kinds=('struct', 'union', 'struct_patch', 'union_patch')
             for fi in range(len(members(model.namespaces[ni].defs[di])))]
 
 
-@rule('B23', '`@X` must name an annotation that exists')
+@rule('B23', '`@X` / `@ns.X` must name an annotation that exists: not an undefined name, not a namespace that is not imported, '
+      'not a prefix that is no namespace, not a struct / alias / annotation type')
 class _B23:
     def sites(model):
-        return _field_sites(model) + [(ni, di, -1) for ni, di in user_types(model, ('alias',))
-                                      if model.namespaces[ni].name != 'stone_cfg']
+        hosts = _field_sites(model) + [(ni, di, -1) for ni, di in user_types(model, ('alias',))
+                                       if model.namespaces[ni].name != 'stone_cfg']
+        return [h + (k,) for h in hosts for k in ('unknown', 'notimported', 'notns', 'kind', 'far_unknown')]
+
+    def ctx(model, s):
+        d = model.namespaces[s[0]].defs[s[1]]
+        return [s[3], 'alias' if s[2] == -1 else d.kind]
 
     def apply(model, s, rng):
-        d = model.namespaces[s[0]].defs[s[1]]
+        ns = model.namespaces[s[0]]
+        d = ns.defs[s[1]]
         tgt = d if s[2] == -1 else members(d)[s[2]]
-        tgt.annotations.insert(rng.randint(0, len(tgt.annotations)), AnnotationRef('ZqNoSuchAnnotation'))
+        k = s[3]
+        if k == 'unknown':
+            ref = AnnotationRef('ZqNoSuchAnnotation')
+        elif k == 'notimported':
+            others = [m.name for m in model.namespaces if m.name != ns.name and m.name not in ns.imports]
+            ref = AnnotationRef('ZqX', ns=rng.choice(others + ['zq_ns_not_imported', ns.name]))
+        elif k == 'notns':
+            st = fresh(model, ns, 'ZqNotANamespace')
+            add_def(ns, rng.choice((mk_struct(st), Alias(st, TypeRef('String')), Annotation(st, 'Deprecated'))), rng)
+            ref = AnnotationRef('ZqX', ns=st)
+        elif k == 'kind':
+            n = fresh(model, ns, 'ZqNotAnAnnotation')
+            add_def(ns, rng.choice((mk_struct(n), mk_union(n), Alias(n, TypeRef('String')),
+                                    AnnotationType(n, doc='zq', params=[]))), rng)
+            ref = AnnotationRef(n)
+        else:
+            imported = [m for m in ns.imports if sg.find_ns(model, m) is not None and m != 'stone_cfg']
+            far = sg.find_ns(model, rng.choice(imported)) if imported and rng.random() < 0.5 else _far_ns(model, ns, rng)
+            if not far.defs:
+                add_def(far, Alias(fresh(model, far, 'ZqFarFiller'), TypeRef('String')), rng)
+            ref = AnnotationRef('ZqNoSuchAnnotation', ns=far.name)
+        tgt.annotations.insert(rng.randint(0, len(tgt.annotations)), ref)
 
 
 @rule('B24', 'conflicting annotations on one field: two Omitted, two Deprecated / Preview, Deprecated with Preview, two redactors')
@@ -1840,6 +2029,24 @@ class _B24:
         if s[3] == 'redactors':
             fl.type = TypeRef('String')
             fl.default = None
+
+
+@rule('B24.alias', 'two redactors on one alias (the same one twice, or two different ones)')
+class _B24a:
+    def sites(model):
+        return [(ni, k) for (ni,) in _regular_ns(model) for k in ('two', 'same')]
+
+    def apply(model, s, rng):
+        ns = model.namespaces[s[0]]
+        al = Alias(fresh(model, ns, 'ZqTwiceRedacted'), TypeRef(rng.choice(('String', 'Int64', 'Bytes'))))
+        add_def(ns, al, rng)
+        kinds = rng.sample(('RedactedBlot', 'RedactedHash'), 2) if s[1] == 'two' else [rng.choice(('RedactedBlot', 'RedactedHash'))]
+        names = []
+        for i, t in enumerate(kinds):
+            n = fresh(model, ns, 'ZqAliasRedactor%d' % i)
+            add_def(ns, Annotation(n, t, None, [], {}), rng)
+            names.append(n)
+        al.annotations = [AnnotationRef(names[0]), AnnotationRef(names[-1])]
 
 
 @rule('B25', 'an alias supports only redactors and custom annotations (not Deprecated / Preview / Omitted)')
@@ -1956,13 +2163,38 @@ _C3 = {
 }
 
 
+HUGE_INT = '9' * 4400          # more digits than CPython converts (sys.int_info.default_max_str_digits = 4300)
+
+
 def _c3(model, s, rng):
+    if s[1] == 'usertype':
+        # a literal where the member's type is a struct / a union: only a reference to one of its examples fits
+        ns = model.namespaces[s[0]]
+        inner = fresh(model, ns, 'ZqExInner')
+        if rng.random() < 0.5:
+            d = mk_struct(inner, [Field('x', TypeRef('Int32'))])
+            d.examples = [Example('default', None, {'x': 1})]
+        else:
+            d = mk_union(inner, [Field('x'), Field('y', TypeRef('Int32'))])
+            d.examples = [Example('default', None, {'x': None})]
+        add_def(ns, d, rng)
+        t = rng.choice((TypeRef(inner), TypeRef(inner, nullable=True), TypeRef('List', args=[TypeRef(inner)])))
+        v = rng.choice((1, 'default', True, 1.5))
+        _ex_host(model, s, rng, [Field('a', t)], {'a': [v] if t.name == 'List' else v})
+        return None
+    if s[1] == 'hugeint':
+        t = rng.choice((TypeRef('Int64'), TypeRef('UInt64'), TypeRef('Int32', nullable=True), TypeRef('List', args=[TypeRef('UInt32')])))
+        _ex_host(model, s, rng, [Field('a', t)], {'a': ['ZQHUGEINT'] if t.name == 'List' else 'ZQHUGEINT'})
+        return [('"ZQHUGEINT"', rng.choice(('', '-')) + HUGE_INT)]
     t, v = _C3[s[1]](rng)
     _ex_host(model, s, rng, [Field('a', t)], {'a': v})
 
 
 def _c4(model, s, rng):
     tags = [Field('t1'), Field('t2', TypeRef('Int32'))]
+    if s[1] == 'voidvalue':
+        _ex_host(model, s, rng, tags, {'t1': rng.choice((1, 'x', True, 0))}, union=True)     # a void member takes no value but null
+        return
     _ex_host(model, s, rng, tags, {'t1': None, 't2': 3} if s[1] == 'two' else {'t2': 'x'}, union=True)
 
 
@@ -1979,16 +2211,40 @@ def _c6(model, s, rng):
         root.examples = [Example('default', None, {'zq_root_f': 1})]
     elif s[1] == 'two':
         root.examples = [Example('default', None, {'zq_leaf_tag0': ExampleRef('default'), 'zq_leaf_tag1': ExampleRef('default')})]
+    elif s[1] == 'nolabel':
+        root.examples = [Example('default', None, {'zq_leaf_tag0': ExampleRef('zq_no_such_label')})]
     else:
         root.examples = [Example('default', None, {'zq_no_such_tag': ExampleRef('default')})]
 
 
 def _c7(model, s, rng):
     ns = model.namespaces[s[0]]
+    if s[1] in ('cycle1', 'cycle2'):
+        # examples that refer to each other in a cycle have no value
+        a = fresh(model, ns, 'ZqExCycA')
+        da = mk_struct(a, [Field('n', TypeRef('Int32'))])
+        add_def(ns, da, rng)
+        if s[1] == 'cycle1':
+            da.fields.append(Field('again', TypeRef(a, nullable=True)))
+            da.examples = [Example('default', None, {'n': 1, 'again': ExampleRef('default')})]
+        else:
+            b = fresh(model, ns, 'ZqExCycB')
+            db = mk_struct(b, [Field('back', TypeRef(a, nullable=True))])
+            add_def(ns, db, rng)
+            as_list = rng.random() < 0.5
+            da.fields.append(Field('forth', TypeRef('List', args=[TypeRef(b)]) if as_list else TypeRef(b)))
+            da.examples = [Example('default', None, {'n': 1, 'forth': [ExampleRef('default')] if as_list else ExampleRef('default')})]
+            db.examples = [Example('default', None, {'back': ExampleRef('default')})]
+        return
     inner = fresh(model, ns, 'ZqExInner')
     d = mk_struct(inner, [Field('x', TypeRef('Int32'))])
     d.examples = [Example('default', None, {'x': 1})]
     add_def(ns, d, rng)
+    if s[1] == 'union':
+        # the member of a UNION refers to an example its (struct) type does not have
+        _ex_host(model, s, rng, [Field('t1'), Field('t2', TypeRef(inner, nullable=rng.random() < 0.3))],
+                 {'t2': ExampleRef('zq_no_such_label')}, union=True)
+        return
     t = TypeRef(inner) if s[1] == 'direct' else TypeRef('List', args=[TypeRef(inner)])
     v = ExampleRef('zq_no_such_label') if s[1] == 'direct' else [ExampleRef('zq_no_such_label')]
     _ex_host(model, s, rng, [Field('a', t)], {'a': v})
@@ -2192,37 +2448,99 @@ _site_rule('container', 'where a list / map is required an example must give one
 
 _ex_rule('C1', 'an example can only mention fields of the type', ('x',), _c1)
 _ex_rule('C2', 'an example must give every required field (lang_ref "Examples")', ('x',), _c2)
-_ex_rule('C3', 'an example value must be valid for the field type (kind, bounds, lists, maps and their keys, nullables, nesting)', tuple(_C3), _c3)
-_ex_rule('C4', 'a union example selects exactly one tag, with a value of its type (lang_ref "Union" examples)', ('two', 'badvalue'), _c4)
+_ex_rule('C3', 'an example value must be valid for the field type (kind, bounds, lists, maps and their keys, nullables, nesting)', tuple(_C3) + ('usertype', 'hugeint'), _c3)
+_ex_rule('C4', 'a union example selects exactly one tag, with a value of its type (lang_ref "Union" examples)', ('two', 'badvalue', 'voidvalue'), _c4)
 _ex_rule('C5', 'a union example can only select a tag of the union', ('x',), _c5)
-_ex_rule('C6', 'an example of a struct with enumerated subtypes is a single reference to a subtype example by its type tag',
-         ('fields', 'two', 'unknown'), _c6)
-_ex_rule('C7', 'a reference to an example label must name an example of the referenced type', ('direct', 'list'), _c7)
+_ex_rule('C6', 'an example of a struct with enumerated subtypes is a single reference to an existing subtype example by its type tag',
+         ('fields', 'two', 'unknown', 'nolabel'), _c6)
+_ex_rule('C7', 'a reference to an example label must name an example of the referenced type, and examples cannot refer to each '
+         'other in a cycle', ('direct', 'list', 'union', 'cycle1', 'cycle2'), _c7)
 
 
 # ================================================================================================ tier C: documentation references
 
+# A reference text is a template over names the injector makes sure exist:
+#   %(type)s   a struct / union of the namespace (the host itself when the host is one)
+#   %(route)s  a route of the namespace (the host itself when the host is a route)        [variant needs a route]
+#   %(alias)s  an alias of a primitive type     %(anno)s  an annotation
+#   %(far)s    an imported namespace that defines struct ZqFarS (field zq_far_f), alias ZqFarA = Int32, no route zq_nope
+#   %(next)d   a version the route does not have
+# Every text is CERTAINLY illegal wherever it stands (doc of a struct, a union, one of their members, or a route).
 _DOCREFS = {
     'C8': ('a doc reference tag must be one of route / type / field / link / val (lang_ref "References")',
-           [':zqtag:`x`', ':types:`Foo`', ':values:`1`']),
-    'C9': (':field: must name a field of a struct / tag of a union that exists',
-           [':field:`ZqNoType.x`', ':field:`%(self)s.zq_no_field`', ':field:`zq_no_field`']),
-    'C10': (':link: needs a title and a URI', [':link:`onlyoneword`']),
-    'C11': (':route: must name a route (and version) that exists',
-            [':route:`zq_no_route`', ':route:`zq_no_ns.r`', ':route:`zq_no_route:2`', ':route:`%(self)s`']),
-    'C12': (':type: must name a struct or union that exists', [':type:`ZqNoType`', ':type:`zq_no_ns.T`']),
-    'C13': (':val: must be null, true, false, a number or a quoted string', [':val:`zqword`', ':val:`"unterminated`', ':val:`1.2.3`']),
+           [('tag', ':zqtag:`x`'), ('plural', ':types:`%(type)s`'), ('values', ':values:`1`')]),
+    'C9': (':field: must name an existing field of a struct / tag of a union: `field` (of the type the doc belongs to), '
+           '`Type.field`, `namespace.Type.field`',
+           [('unknown_type', ':field:`ZqNoType.x`'), ('unknown_field', ':field:`%(type)s.zq_no_field`'), ('bare_unknown', ':field:`zq_no_field`'),
+            ('of_route', ':field:`%(route)s.x`'), ('ns_two_parts', ':field:`%(far)s.ZqFarS`'), ('ns_unknown_type', ':field:`%(far)s.ZqNope.x`'),
+            ('of_alias', ':field:`%(alias)s.x`'), ('of_annotation', ':field:`%(anno)s.x`'), ('of_far_alias', ':field:`%(far)s.ZqFarA.x`'),
+            ('ns_unknown_field', ':field:`%(far)s.ZqFarS.zq_nope`'), ('of_builtin', ':field:`String.x`')]),
+    'C10': (':link: needs a title and a URI', [('oneword', ':link:`onlyoneword`'), ('empty', ':link:``'), ('trailing', ':link:`title `')]),
+    'C11': (':route: must name a route (and version) that exists, in the namespace or in an imported one',
+            [('unknown', ':route:`zq_no_route`'), ('unknown_ns', ':route:`zq_no_ns.r`'), ('unknown_v2', ':route:`zq_no_route:2`'),
+             ('a_type', ':route:`%(type)s`'), ('not_ns', ':route:`%(type)s.r`'), ('bad_version', ':route:`%(route)s:x`'),
+             ('no_version', ':route:`%(route)s:%(next)d`'), ('far_unknown', ':route:`%(far)s.zq_nope`'), ('an_alias', ':route:`%(alias)s`')]),
+    'C12': (':type: must name a struct or union that exists, in the namespace or in an imported one',
+            [('unknown', ':type:`ZqNoType`'), ('unknown_ns', ':type:`zq_no_ns.T`'), ('not_ns', ':type:`%(type)s.T`'),
+             ('an_alias', ':type:`%(alias)s`'), ('a_route', ':type:`%(route)s`'), ('far_alias', ':type:`%(far)s.ZqFarA`'),
+             ('far_unknown', ':type:`%(far)s.ZqNope`'), ('an_annotation', ':type:`%(anno)s`'), ('builtin', ':type:`String`')]),
+    'C13': (':val: must be null, true, false, a number or a quoted string',
+            [('word', ':val:`zqword`'), ('unterminated', ':val:`"unterminated`'), ('two_dots', ':val:`1.2.3`'), ('empty', ':val:``')]),
 }
 
 
-def _doc_rule(id, doc, texts):
+def _doc_names(model, ns, d, text, rng):
+    """the names a reference template mentions; helper definitions are added to the model on demand"""
+    names = {}
+    if '%(type)s' in text:
+        if d.kind in ('struct', 'union'):
+            names['type'] = d.name
+        else:
+            cands = [x.name for x in ns.defs if x.kind in ('struct', 'union')]
+            if not cands:
+                cands = [fresh(model, ns, 'ZqDocStruct')]
+                add_def(ns, mk_struct(cands[0]), rng)
+            names['type'] = rng.choice(cands)
+    if '%(route)s' in text:
+        r = d if d.kind == 'route' else rng.choice([x for x in ns.defs if x.kind == 'route' and '/' not in x.name])
+        names['route'] = r.name
+        names['next'] = max(x.version for x in ns.defs if x.kind == 'route' and x.name == r.name) + rng.choice((1, 7))
+    if '%(alias)s' in text:
+        names['alias'] = fresh(model, ns, 'ZqDocAlias')
+        add_def(ns, Alias(names['alias'], TypeRef(rng.choice(('String', 'Int32')))), rng)
+    if '%(anno)s' in text:
+        names['anno'] = fresh(model, ns, 'ZqDocAnno')
+        add_def(ns, Annotation(names['anno'], 'Deprecated'), rng)
+    if '%(far)s' in text:
+        far = _far_ns(model, ns, rng)
+        add_def(far, mk_struct('ZqFarS', [Field('zq_far_f', TypeRef('Int32'))]), rng)
+        add_def(far, Alias('ZqFarA', TypeRef('Int32')), rng)
+        names['far'] = far.name
+    return names
+
+
+def _doc_rule(id, doc, variants):
+    texts = dict(variants)
+
     class _R:
         def sites(model):
-            return [(ni, di) for ni, di in _structs(model, kinds=('struct', 'union'))]
+            out = []
+            for ni, ns in enumerate(model.namespaces):
+                if ns.name == 'stone_cfg':
+                    continue
+                has_route = any(x.kind == 'route' and '/' not in x.name for x in ns.defs)
+                for di, d in enumerate(ns.defs):
+                    if d.kind in ('struct', 'union') or (d.kind == 'route' and '/' not in d.name):
+                        out += [(ni, di, v) for v, t in variants if has_route or '%(route)s' not in t]
+            return out
+
+        def ctx(model, s):
+            return [s[2], model.namespaces[s[0]].defs[s[1]].kind]
 
         def apply(model, s, rng):
-            d = model.namespaces[s[0]].defs[s[1]]
-            ref = rng.choice(texts) % {'self': d.name}
+            ns = model.namespaces[s[0]]
+            d = ns.defs[s[1]]
+            ref = texts[s[2]] % _doc_names(model, ns, d, texts[s[2]], rng)
             text = 'See %s for more.' % ref
             ms = members(d)
             if ms and rng.random() < 0.5:
@@ -2230,18 +2548,17 @@ def _doc_rule(id, doc, texts):
                 fl.doc = (fl.doc + ' ' if fl.doc else '') + text
             else:
                 d.doc = (d.doc + '\n\n' if d.doc else '') + text
-    RULES.append(Rule(id, doc, 'model', _R.sites, _R.apply))
+    RULES.append(Rule(id, doc, 'model', _R.sites, _R.apply, _R.ctx))
 
 
-for _id, (_doc, _texts) in _DOCREFS.items():
-    _doc_rule(_id, _doc, _texts)
+for _id, (_doc, _variants) in _DOCREFS.items():
+    _doc_rule(_id, _doc, _variants)
 
 
 UNBUILT = {
-    'S11': 'unhashable example-map key: the model keeps map examples as Python dicts, whose keys are hashable',
     'B20.doc': 'parameter docs / annotation types across namespaces (`@other_ns.Custom`): generator steers away (crash site S4)',
-    'C9.route': ':field: inside a route doc without a type context (assertion site, C03)',
     'A5.env': 'import visible only through another file of the namespace (a layout context, not a violation)',
+    'deep': 'nesting beyond the recursion limit ("The specs nest too deeply"): a limit of the implementation, not a rule of the language',
 }
 
 
